@@ -256,6 +256,7 @@ func TestC14(t *testing.T) {
 					if r.Msg != "9001/p" {
 						return fmt.Errorf("answered by %q", r.Msg)
 					}
+					o.H2PAuth = r.Auth
 				}
 				return nil
 			}) {
@@ -281,6 +282,7 @@ func TestC14(t *testing.T) {
 					if vp.Str(m, "msg") != "9002/h" {
 						return fmt.Errorf("plugin's dial: %v", m)
 					}
+					o.P2HAuth = vp.Str(m, "auth")
 				}
 				return nil
 			}) {
